@@ -242,3 +242,736 @@ Proof.
       * rewrite M0, A0. exact A1.
       * rewrite S0. constructor.
 Qed.
+
+(* ======================= the database model ======================= *)
+Definition kfind (kss : list kspace) (id : N) : option kspace := find (fun k => k_id k =? id) kss.
+Definition absk (I : N) (kss : list kspace) (id : N) (k : bytes) : option bytes :=
+  match kfind kss id with Some ks => abs I (k_tree ks) k | None => None end.
+Definition absd (I : N) (d : db) : N -> bytes -> option bytes := absk I (d_kss d).
+
+Lemma kfind_some kss id ks : kfind kss id = Some ks -> In ks kss /\ k_id ks = id.
+Proof. unfold kfind. intros H. apply find_some in H. destruct H as [A B]. split; [exact A|lia]. Qed.
+
+Lemma kfind_map f kss id : (forall x, k_id (f x) = k_id x) -> kfind (map f kss) id = option_map f (kfind kss id).
+Proof.
+  intros H. unfold kfind. induction kss as [|a r IH]; cbn [map find]; [reflexivity|].
+  rewrite H. destruct (k_id a =? id); [reflexivity|exact IH].
+Qed.
+
+Lemma kfind_set kss ks t' id : kfind kss (k_id ks) = Some ks ->
+  kfind (map (fun x => if k_id x =? k_id (with_tree ks t') then with_tree ks t' else x) kss) id
+  = if id =? k_id ks then Some (with_tree ks t') else kfind kss id.
+Proof.
+  unfold kfind. cbn [with_tree k_id]. induction kss as [|a r IH]; cbn [map find]; [discriminate|].
+  destruct (N.eqb_spec (k_id a) (k_id ks)) as [E|NE].
+  - intros _. cbn [with_tree k_id]. rewrite E. destruct (N.eqb_spec (k_id ks) id) as [E2|NE2].
+    + subst id. rewrite N.eqb_refl. reflexivity.
+    + destruct (N.eqb_spec id (k_id ks)); [lia|]. clear IH.
+      induction r as [|b r IHr]; cbn [map find]; [reflexivity|].
+      destruct (N.eqb_spec (k_id b) (k_id ks)) as [E3|NE3].
+      * cbn [with_tree k_id]. destruct (N.eqb_spec (k_id ks) id); [lia|]. destruct (N.eqb_spec (k_id b) id); [lia|]. exact IHr.
+      * destruct (k_id b =? id); [reflexivity|exact IHr].
+  - intros H. destruct (N.eqb_spec (k_id a) id) as [E2|NE2].
+    + destruct (N.eqb_spec id (k_id ks)); [lia|reflexivity].
+    + apply IH, H.
+Qed.
+
+Lemma kfind_filter_ne kss n id : id <> n -> kfind (filter (fun k => negb (k_id k =? n)) kss) id = kfind kss id.
+Proof.
+  intros NE. unfold kfind. induction kss as [|a r IH]; cbn [filter find]; [reflexivity|].
+  destruct (N.eqb_spec (k_id a) n) as [E|NE2]; cbn [negb].
+  - destruct (N.eqb_spec (k_id a) id); [lia|exact IH].
+  - cbn [find]. destruct (k_id a =? id); [reflexivity|exact IH].
+Qed.
+
+(* ---- the reference: one finite map per keyspace id ---- *)
+Definition smap := N -> bytes -> option bytes.
+Definition supd (m : smap) (id : N) (k : bytes) (v : option bytes) : smap :=
+  fun id' k' => if (id' =? id) && list_eqb k k' then v else m id' k'.
+Definition sclear (m : smap) (id : N) : smap := fun id' k' => if id' =? id then None else m id' k'.
+Definition val_of (vt : vtype) (v : bytes) : option bytes := match vt with VTomb | VWeak => None | _ => Some v end.
+Definition has_ks (d : db) (id : N) : bool := match ks_of d id with Some _ => true | None => false end.
+Definition is_ok (o : obs) : bool := match o with ObOk => true | _ => false end.
+Definition sitem (g : N -> bool) (m : smap) (it : ritem) : smap :=
+  if g (ri_ks it) then supd m (ri_ks it) (ri_key it) (val_of (ri_vt it) (ri_value it)) else m.
+Definition iitem_key (it : iitem) : bytes := match it with IPut k _ => k | ITomb k => k end.
+Definition iitem_val (it : iitem) : option bytes := match it with IPut _ v => Some v | ITomb _ => None end.
+Definition singest (m : smap) (id : N) (items : list iitem) : smap :=
+  fun id' k' => if id' =? id then match find (fun it => list_eqb (iitem_key it) k') items with
+                                  | Some it => iitem_val it | None => m id' k' end
+                else m id' k'.
+
+(* the reference step.  The database state is consulted only for what the caller observes or chooses: whether the call was
+   accepted (its result), whether a keyspace id exists, and which id a new keyspace receives. *)
+Definition sstep (d : db) (o : wop) (m : smap) : smap :=
+  match o with
+  | WKs h name => match blookup name (d_map d) with Some _ => m | None => sclear m (d_next_id d) end
+  | WWrite id k v vt mvt => if is_ok (snd (write_one d id k v vt mvt)) then supd m id k (val_of mvt v) else m
+  | WBatch ji mi => fold_left (sitem (has_ks d)) mi m
+  | WClear id => if is_ok (snd (do_clear d id)) then sclear m id else m
+  | WIngest id items => if has_ks d id then match items with [] => m | _ => singest m id items end else m
+  | WRotate' _ | WStep | WDrain _ | WMajor _ _ => m
+  end.
+
+Definition meq (m1 m2 : smap) : Prop := forall id k, m1 id k = m2 id k.
+
+Lemma sitem_ext g m1 m2 it : meq m1 m2 -> meq (sitem g m1 it) (sitem g m2 it).
+Proof. intros H id k. unfold sitem, supd. destruct (g (ri_ks it)); [destruct (_ && _); [reflexivity|apply H]|apply H]. Qed.
+Lemma fold_sitem_ext g mi : forall m1 m2, meq m1 m2 -> meq (fold_left (sitem g) mi m1) (fold_left (sitem g) mi m2).
+Proof. induction mi as [|it r IH]; intros m1 m2 H; cbn [fold_left]; [exact H|]. apply IH, sitem_ext, H. Qed.
+Lemma sstep_ext d o m1 m2 : meq m1 m2 -> meq (sstep d o m1) (sstep d o m2).
+Proof.
+  intros H. destruct o; cbn [sstep]; try exact H.
+  - destruct (blookup name (d_map d)); [exact H|]. intros ? ?. unfold sclear. destruct (_ =? _); [reflexivity|apply H].
+  - destruct (is_ok _); [|exact H]. intros ? ?. unfold supd. destruct (_ && _); [reflexivity|apply H].
+  - apply fold_sitem_ext, H.
+  - destruct (is_ok _); [|exact H]. intros ? ?. unfold sclear. destruct (_ =? _); [reflexivity|apply H].
+  - destruct (has_ks d id); [|exact H]. destruct items; [exact H|]. intros ? ?. unfold singest.
+    destruct (_ =? _); [destruct (find _ _); [reflexivity|apply H]|apply H].
+Qed.
+
+(* ---- one committed batch ---- *)
+Lemma val_of_ent k s vt v : value_of (Some (mkEnt k s vt v)) = val_of vt v.
+Proof. destruct vt; reflexivity. Qed.
+
+Lemma apply_item_abs I s g kss it : s < I -> (forall ks, In ks kss -> P s (k_tree ks)) ->
+  (forall id, g id = match kfind kss id with Some _ => true | None => false end) ->
+  meq (absk I (apply_item s kss it)) (sitem g (absk I kss) it).
+Proof.
+  intros L HP G id k. unfold absk, apply_item. rewrite kfind_map by (intros x; destruct (k_id x =? ri_ks it); reflexivity).
+  unfold sitem, supd. rewrite G.
+  destruct (kfind kss id) as [ks|] eqn:K; cbn [option_map].
+  - destruct (kfind_some _ _ _ K) as [Iks Eid]. rewrite Eid.
+    destruct (N.eqb_spec id (ri_ks it)) as [E|NE].
+    + rewrite <- E, K. cbn beta. rewrite N.eqb_refl. cbn [andb with_tree k_tree]. unfold abs.
+      destruct (HP ks Iks) as [T [_ HD]]. rewrite rd_append; [|exact T|intros y Iy; apply HD; unfold srcs; exact Iy|exact L].
+      cbn [ek es]. destruct (list_eqb (ri_key it) k); [apply val_of_ent|rewrite K; reflexivity].
+    + destruct (kfind kss (ri_ks it)); [|rewrite K; reflexivity]. cbn beta. destruct (N.eqb_spec id (ri_ks it)); [lia|]. rewrite K. reflexivity.
+  - destruct (N.eqb_spec id (ri_ks it)) as [E|NE]; [rewrite <- E, K; rewrite K; reflexivity|].
+    destruct (kfind kss (ri_ks it)); [|rewrite K; reflexivity]. cbn beta. destruct (N.eqb_spec id (ri_ks it)); [lia|]. rewrite K. reflexivity.
+Qed.
+
+Lemma fold_apply_abs I s g : s < I -> forall mi kss, (forall ks, In ks kss -> P s (k_tree ks)) ->
+  (forall id, g id = match kfind kss id with Some _ => true | None => false end) ->
+  meq (absk I (fold_left (apply_item s) mi kss)) (fold_left (sitem g) mi (absk I kss)).
+Proof.
+  intros L. induction mi as [|it r IH]; intros kss HP G; cbn [fold_left]; [intros id k; reflexivity|].
+  intros id k. rewrite IH.
+  - apply fold_sitem_ext. apply apply_item_abs; assumption.
+  - apply apply_item_P, HP.
+  - intros i. rewrite G. unfold apply_item. rewrite kfind_map by (intros x; destruct (k_id x =? ri_ks it); reflexivity).
+    destruct (kfind kss i); reflexivity.
+Qed.
+
+Theorem commit_batch_refines I d ji mi : DInv d -> d_seqno d < I ->
+  meq (absd I (commit_batch d ji mi)) (fold_left (sitem (has_ks d)) mi (absd I d)).
+Proof.
+  intros H L. unfold absd, commit_batch. cbn [d_kss upd upd_journal].
+  apply fold_apply_abs; [exact L|intros ks Iks; apply tb_P, H, Iks|intros id; reflexivity].
+Qed.
+
+Theorem write_one_refines I d id k v vt mvt : DInv d -> d_seqno (fst (write_one d id k v vt mvt)) <= I ->
+  meq (absd I (fst (write_one d id k v vt mvt))) (sstep d (WWrite id k v vt mvt) (absd I d)).
+Proof.
+  intros H. cbn [sstep]. unfold write_one. destruct (ks_of d id) as [ks|] eqn:K; [|intros i k0; reflexivity].
+  destruct (k_deleted ks); [intros _ i k0; reflexivity|]. destruct (d_poisoned d); [intros _ i k0; reflexivity|]. cbn [fst snd is_ok].
+  intros L0. assert (L : d_seqno d < I) by (cbn in L0; lia).
+  intros i k0. rewrite (commit_batch_refines I d _ _ H L). cbn [fold_left]. unfold sitem. cbn [ri_ks ri_key ri_vt ri_value].
+  unfold has_ks. rewrite K. reflexivity.
+Qed.
+
+(* ---- clear ---- *)
+Theorem do_clear_refines I d id : meq (absd I (fst (do_clear d id))) (sstep d (WClear id) (absd I d)).
+Proof.
+  cbn [sstep]. unfold do_clear. destruct (ks_of d id) as [ks|] eqn:K; [|intros i k0; reflexivity].
+  destruct (d_poisoned d); [intros i k0; reflexivity|]. cbn [fst snd is_ok].
+  unfold draw_version. cbn [fst snd is_ok].
+  intros i k0. unfold absd, absk, set_ks. cbn [d_kss upd upd_journal].
+  destruct (kfind_some _ _ _ K) as [_ Eid].
+  rewrite kfind_set by (rewrite Eid; exact K). unfold sclear. rewrite Eid.
+  destruct (i =? id); [|reflexivity]. cbn [with_tree k_tree]. unfold abs. rewrite rd_clear. reflexivity.
+Qed.
+
+(* ---- keyspace creation ---- *)
+Lemma abs_init I k : abs I tree_init k = None.
+Proof. reflexivity. Qed.
+
+Theorem do_ks_refines I d h name : meq (absd I (fst (do_ks d h name))) (sstep d (WKs h name) (absd I d)).
+Proof.
+  cbn [sstep]. unfold do_ks. destruct (blookup name (d_map d)); [intros i k0; reflexivity|].
+  intros i k0. unfold absd, absk. cbn [fst d_kss upd_views upd_reg draw_version upd]. unfold sclear, kfind. cbn [find k_id].
+  destruct (N.eqb_spec (d_next_id d) i) as [E|NE].
+  - subst i. rewrite N.eqb_refl. reflexivity.
+  - destruct (N.eqb_spec i (d_next_id d)); [lia|]. fold (kfind (filter (fun k => negb (k_id k =? d_next_id d)) (d_kss d)) i).
+    rewrite kfind_filter_ne by lia. reflexivity.
+Qed.
+
+(* ---- rotation (with the version-history and journal maintenance that follow it) ---- *)
+Theorem do_rotate_refines I d id : DInv d -> meq (absd I (fst (do_rotate d id))) (absd I d).
+Proof.
+  intros H. unfold do_rotate. destruct (ks_of d id) as [ks|] eqn:K; [|intros i k0; reflexivity].
+  destruct (t_rotate (k_tree ks)) as [t ok] eqn:R. destruct ok; [|intros i k0; reflexivity]. cbn [fst].
+  assert (Et : t = fst (t_rotate (k_tree ks))) by (rewrite R; reflexivity).
+  pose proof (H ks (ks_of_in _ _ _ K)) as [T _].
+  intros i k0. unfold absd, absk, after_rotate, journal_maintenance. cbn [d_kss upd upd_queue].
+  rewrite kfind_map by (intros x; destruct (existsb _ _); reflexivity).
+  unfold set_ks. cbn [d_kss upd]. destruct (kfind_some _ _ _ K) as [_ Eid].
+  rewrite kfind_set by (rewrite Eid; exact K). rewrite Eid.
+  assert (MA : forall W x, TInv (k_tree x) -> abs I (k_tree (if existsb (fun p => snd p =? k_id x) (d_map d)
+                 then with_tree x (vh_maintenance W (k_tree x)) else x)) k0 = abs I (k_tree x) k0).
+  { intros W x Tx. destruct (existsb _ _); [|reflexivity]. cbn [with_tree k_tree]. unfold abs. rewrite rd_maint; [reflexivity|].
+    exact (proj1 (ti_ids _ Tx)). }
+  destruct (N.eqb_spec i id) as [E|NE]; cbn [option_map].
+  - subst i. assert (K' : kfind (d_kss d) id = Some ks) by exact K. rewrite K'. cbn [d_map upd_queue upd].
+    rewrite MA by (cbn [with_tree k_tree]; subst t; apply (tinv_step _ TRotate T); exact Logic.I).
+    cbn [with_tree k_tree]. subst t. unfold abs. rewrite rd_rotate by exact T. reflexivity.
+  - destruct (kfind (d_kss d) i) as [x|] eqn:Kx; cbn [option_map]; [|reflexivity]. cbn [d_map upd_queue upd].
+    apply MA. destruct (kfind_some _ _ _ Kx) as [Ix _]. exact (proj1 (H x Ix)).
+Qed.
+
+(* ---- major compaction ---- *)
+Definition nofilter (d : db) : Prop := forall ks, In ks (d_kss d) -> k_filter ks = None.
+
+Theorem do_compact_refines I d id ev : DInv d -> nofilter d -> d_seqno d <= I ->
+  meq (absd I (do_compact d id ev)) (absd I d).
+Proof.
+  intros H NF L. unfold do_compact. destruct (ks_of d id) as [ks|] eqn:K; [|intros i k0; reflexivity].
+  destruct (v_tables (latest (k_tree ks))); [intros i k0; reflexivity|]. unfold draw_version. cbn [fst snd].
+  intros i k0. unfold absd, absk, set_ks. cbn [d_kss upd]. destruct (kfind_some _ _ _ K) as [Iks Eid].
+  rewrite kfind_set by (rewrite Eid; exact K). rewrite Eid.
+  destruct (N.eqb_spec i id) as [E|NE]; [|reflexivity]. subst i. assert (K' : kfind (d_kss d) id = Some ks) by exact K. rewrite K'. cbn [with_tree k_tree].
+  rewrite (NF ks Iks). apply (abs_compact_nofilter I (d_seqno d)); [apply H, Iks|exact L].
+Qed.
+
+(* with a compaction filter: every other keyspace is untouched; in the compacted keyspace a key keeps its value or takes the
+   filtered form of the version that was read before *)
+Theorem do_compact_filtered I d id ev i k0 : DInv d -> d_seqno d <= I ->
+  absd I (do_compact d id ev) i k0 = absd I d i k0 \/
+  exists ks h, i = id /\ ks_of d id = Some ks /\ rd I (k_tree ks) k0 = Some h /\
+               absd I (do_compact d id ev) i k0 = value_of (Some (apply_filter (k_filter ks) h)).
+Proof.
+  intros H L. unfold do_compact. destruct (ks_of d id) as [ks|] eqn:K; [|left; reflexivity].
+  destruct (v_tables (latest (k_tree ks))) eqn:TBL; [left; reflexivity|]. unfold draw_version. cbn [fst snd].
+  unfold absd, absk, set_ks. cbn [d_kss upd]. destruct (kfind_some _ _ _ K) as [Iks Eid].
+  rewrite kfind_set by (rewrite Eid; exact K). rewrite Eid.
+  destruct (N.eqb_spec i id) as [E|NE]; [|left; reflexivity]. subst i. assert (K' : kfind (d_kss d) id = Some ks) by exact K; rewrite K'. cbn [with_tree k_tree].
+  destruct (abs_compact_filter I (d_seqno d) (W_of d) (d_seqno d) ev (k_filter ks) (k_tree ks) k0 (H ks Iks) L) as [E|[h [R E]]];
+    [left; exact E|right]. exists ks, h. auto.
+Qed.
+
+(* ---- worker steps ---- *)
+Lemma absd_ext I d d' : d_kss d' = d_kss d -> meq (absd I d') (absd I d).
+Proof. intros E i k0. unfold absd. rewrite E. reflexivity. Qed.
+
+Lemma dseq_do_rotate d id : d_seqno (fst (do_rotate d id)) = d_seqno d.
+Proof.
+  unfold do_rotate. destruct (ks_of d id); [|reflexivity]. destruct (t_rotate _) as [t ok]. destruct ok; reflexivity.
+Qed.
+
+Theorem do_step_refines I d : DInv d -> d_seqno (fst (do_step d)) <= I -> meq (absd I (fst (do_step d))) (absd I d).
+Proof.
+  intros H. unfold do_step. destruct (d_queue d) as [|m q]; [intros _ i k0; reflexivity|].
+  set (d0 := upd_queue d q (d_flushq d)). assert (H0 : DInv d0) by (apply upd_queue_dinv, H).
+  destruct m as [id mid| |id].
+  - destruct (ks_of d0 id) as [ks|]; [|intros _; apply absd_ext; reflexivity].
+    destruct (_ =? _); [|intros _; apply absd_ext; reflexivity]. cbn [fst]. intros _ i k0.
+    rewrite (do_rotate_refines I d0 id H0). reflexivity.
+  - destruct (d_flushq d0) as [|id fq]; [intros _; apply absd_ext; reflexivity|].
+    set (d1 := maybe_seal (upd_queue d0 (d_queue d0) fq)).
+    assert (H1 : DInv d1) by (apply maybe_seal_dinv, upd_queue_dinv, H0).
+    assert (E1 : d_kss d1 = d_kss d) by (unfold d1, maybe_seal; destruct (_ && _); reflexivity).
+    assert (S1 : d_seqno d1 = d_seqno d) by (unfold d1, maybe_seal; destruct (_ && _); reflexivity).
+    destruct (ks_of d1 id) as [ks|] eqn:K; [|intros _; apply absd_ext; exact E1]. cbn [fst].
+    destruct (v_sealed (latest (k_tree ks))) eqn:SE.
+    + intros _. apply absd_ext. cbn [d_kss journal_maintenance push_msg upd_queue]. exact E1.
+    + unfold draw_version. cbn [fst snd]. cbn [d_seqno journal_maintenance push_msg upd_queue upd]. intros L i k0.
+      unfold absd, absk, set_ks. cbn [d_kss journal_maintenance push_msg upd_queue upd].
+      destruct (kfind_some _ _ _ K) as [Iks Eid]. rewrite kfind_set by (rewrite Eid; exact K). rewrite Eid, E1.
+      destruct (N.eqb_spec i id) as [E|NE]; [|reflexivity]. subst i. unfold ks_of in K. rewrite E1 in K. fold (kfind (d_kss d) id) in K.
+      rewrite K. cbn [with_tree k_tree]. unfold abs. rewrite (rd_flush I (d_seqno d1)); [reflexivity|apply H1, Iks|lia].
+  - intros _. apply absd_ext. reflexivity.
+Qed.
+
+Lemma dseq_do_step d : d_seqno d <= d_seqno (fst (do_step d)).
+Proof.
+  unfold do_step. destruct (d_queue d) as [|m q]; [cbn [fst]; lia|]. destruct m as [id mid| |id]; cbn [fst].
+  - destruct (ks_of _ id) as [ks|]; [|cbn; lia]. destruct (_ =? _); [|cbn; lia]. cbn [fst]. rewrite dseq_do_rotate. cbn. lia.
+  - destruct (d_flushq _) as [|id fq]; [cbn; lia|].
+    match goal with |- context [maybe_seal ?X] => set (dd := X) end.
+    assert (S1 : d_seqno (maybe_seal dd) = d_seqno d) by (unfold maybe_seal; destruct (_ && _); reflexivity).
+    destruct (ks_of (maybe_seal dd) id) as [ks|]; [|cbn [fst]; lia]. cbn [fst].
+    destruct (v_sealed (latest (k_tree ks))); cbn [d_seqno journal_maintenance push_msg upd_queue upd draw_version fst snd]; lia.
+  - cbn. lia.
+Qed.
+
+Theorem do_drain_refines I fuel : forall d n, DInv d -> d_seqno (fst (do_drain fuel d n)) <= I ->
+  meq (absd I (fst (do_drain fuel d n))) (absd I d).
+Proof.
+  induction fuel as [|f IH]; intros d n H L; cbn [do_drain] in *; [intros i k0; reflexivity|].
+  destruct (d_queue d) eqn:Q; [intros i k0; reflexivity|].
+  assert (M : forall f' d' n', d_seqno d' <= d_seqno (fst (do_drain f' d' n'))).
+  { clear. induction f' as [|f' IHf]; intros d' n'; cbn [do_drain]; [cbn; lia|]. destruct (d_queue d'); [cbn; lia|].
+    etransitivity; [apply dseq_do_step|apply IHf]. }
+  intros i k0. rewrite (IH _ _ (do_step_dinv d H) L).
+  apply do_step_refines; [exact H|]. etransitivity; [apply M|exact L].
+Qed.
+
+(* ---- bulk ingestion ---- *)
+Definition ient (g : N) (it : iitem) : ent := match it with IPut k v => mkEnt k g VValue v | ITomb k => mkEnt k g VTomb [] end.
+
+Lemma find_ient g k items :
+  match find (fun x => list_eqb (ek x) k) (map (ient g) items) with Some x => value_of (Some x) | None => None end
+  = match find (fun it => list_eqb (iitem_key it) k) items with Some it => iitem_val it | None => None end /\
+  (find (fun x => list_eqb (ek x) k) (map (ient g) items) = None <-> find (fun it => list_eqb (iitem_key it) k) items = None).
+Proof.
+  induction items as [|it r IH]; cbn [map find]; [split; [reflexivity|tauto]|].
+  assert (E : ek (ient g it) = iitem_key it) by (destruct it; reflexivity). rewrite E.
+  destruct (list_eqb (iitem_key it) k); [|exact IH]. split; [destruct it; reflexivity|split; discriminate].
+Qed.
+
+Theorem do_ingest_refines I d id items : DInv d -> d_seqno (fst (do_ingest d id items)) <= I ->
+  meq (absd I (fst (do_ingest d id items))) (sstep d (WIngest id items) (absd I d)).
+Proof.
+  intros H. cbn [sstep]. unfold do_ingest, has_ks. destruct (ks_of d id) as [ks|] eqn:K; [|intros _ i k0; reflexivity].
+  destruct items as [|it0 its]; [intros _; apply absd_ext; reflexivity|].
+  destruct (t_rotate (k_tree ks)) as [t1 b] eqn:R.
+  assert (E1 : t1 = fst (t_rotate (k_tree ks))) by (rewrite R; reflexivity).
+  pose proof (H ks (ks_of_in _ _ _ K)) as TK. destruct (kfind_some _ _ _ K) as [Iks Eid].
+  assert (EG : forall g e, In e (map (ient g) (it0 :: its)) -> es e = g).
+  { intros g e Ie. rewrite in_map_iff in Ie. destruct Ie as [it [<- _]]. destruct it; reflexivity. }
+  assert (FIN : forall g (t' : tree) i k0,
+            (forall k, rd I t' k = match find (fun x => list_eqb (ek x) k) (map (ient g) (it0 :: its)) with Some x => Some x | None => rd I (k_tree ks) k end) ->
+            match (if i =? id then Some (with_tree ks t') else kfind (d_kss d) i) with Some ks0 => abs I (k_tree ks0) k0 | None => None end
+            = singest (absd I d) id (it0 :: its) i k0).
+  { intros g t' i k0 RD. unfold singest. destruct (N.eqb_spec i id) as [E|NE]; [|reflexivity]. subst i. cbn [with_tree k_tree].
+    unfold abs. rewrite RD. destruct (find_ient g k0 (it0 :: its)) as [F1 F2].
+    destruct (find (fun x => list_eqb (ek x) k0) (map (ient g) (it0 :: its))) as [x|] eqn:F.
+    - rewrite F1. destruct (find (fun it => list_eqb (iitem_key it) k0) (it0 :: its)); [reflexivity|]. exfalso.
+      assert (Some x = None) by (apply F2; reflexivity). discriminate.
+    - rewrite (proj1 F2 eq_refl). unfold absd, absk. assert (K' : kfind (d_kss d) id = Some ks) by exact K; rewrite K'. reflexivity. }
+  destruct (v_sealed (latest t1)) as [|i0 ids] eqn:SE.
+  - unfold draw_version. cbn [fst snd]. cbn [d_seqno push_msg upd_queue upd]. intros L i k0.
+    unfold absd at 1. unfold absk, set_ks. cbn [d_kss push_msg upd_queue upd].
+    rewrite kfind_set by (rewrite Eid; exact K). rewrite Eid.
+    change (map _ (it0 :: its)) with (map (ient (d_seqno d)) (it0 :: its)).
+    apply (FIN (d_seqno d)). intros k.
+    assert (IT : t_register_ingest (d_seqno d) (map (ient (d_seqno d)) (it0 :: its)) t1
+                 = ingest_tree (k_tree ks) 0 (d_seqno d) (map (ient (d_seqno d)) (it0 :: its)))
+      by (unfold ingest_tree; rewrite <- E1, SE; reflexivity).
+    rewrite IT. apply (rd_ingest_tree I (d_seqno d)); [exact TK|lia|lia|apply EG].
+  - unfold draw_version. cbn [fst snd]. cbn [d_seqno push_msg upd_queue upd]. intros L i k0.
+    unfold absd at 1. unfold absk, set_ks. cbn [d_kss push_msg upd_queue upd].
+    rewrite kfind_set by (rewrite Eid; exact K). rewrite Eid.
+    change (map _ (it0 :: its)) with (map (ient (d_seqno d + 1)) (it0 :: its)).
+    apply (FIN (d_seqno d + 1)). intros k.
+    assert (IT : t_register_ingest (d_seqno d + 1) (map (ient (d_seqno d + 1)) (it0 :: its)) (fst (t_flush 0 (d_seqno d) t1))
+                 = ingest_tree (k_tree ks) (d_seqno d) (d_seqno d + 1) (map (ient (d_seqno d + 1)) (it0 :: its)))
+      by (unfold ingest_tree; rewrite <- E1, SE; reflexivity).
+    rewrite IT. apply (rd_ingest_tree I (d_seqno d)); [exact TK|lia|lia|apply EG].
+Qed.
+
+(* ---- the seqno counter never goes back ---- *)
+Lemma dseq_do_drain f : forall d n, d_seqno d <= d_seqno (fst (do_drain f d n)).
+Proof.
+  induction f as [|f IH]; intros d n; cbn [do_drain]; [cbn; lia|]. destruct (d_queue d); [cbn; lia|].
+  etransitivity; [apply dseq_do_step|apply IH].
+Qed.
+
+Lemma wstep_seq_mono d o : d_seqno d <= d_seqno (wstep d o).
+Proof.
+  destruct o; cbn [wstep].
+  - unfold do_ks. destruct (blookup name (d_map d)); cbn; lia.
+  - unfold write_one. destruct (ks_of d id) as [ks|]; [|cbn; lia]. destruct (k_deleted ks); [cbn; lia|].
+    destruct (d_poisoned d); cbn; lia.
+  - cbn. lia.
+  - unfold do_clear. destruct (ks_of d id) as [ks|]; [|cbn; lia]. destruct (d_poisoned d); [cbn; lia|].
+    unfold draw_version. cbn. lia.
+  - rewrite dseq_do_rotate. lia.
+  - apply dseq_do_step.
+  - apply dseq_do_drain.
+  - unfold do_compact. destruct (ks_of d id) as [ks|]; [|lia]. destruct (v_tables _); [lia|]. unfold draw_version. cbn. lia.
+  - unfold do_ingest. destruct (ks_of d id) as [ks|]; [|cbn; lia]. destruct items; [cbn; lia|].
+    destruct (t_rotate (k_tree ks)) as [t1 b]. destruct (v_sealed (latest t1)); unfold draw_version; cbn; lia.
+Qed.
+
+(* ---- no operation assigns or changes a compaction filter; without a filter table no keyspace ever has one ---- *)
+Definition kpres (kss kss' : list kspace) : Prop := forall k', In k' kss' -> exists k, In k kss /\ k_filter k' = k_filter k.
+Lemma kpres_refl kss : kpres kss kss.
+Proof. intros k I. exists k. auto. Qed.
+Lemma kpres_trans a b c : kpres a b -> kpres b c -> kpres a c.
+Proof. intros H1 H2 k I. destruct (H2 k I) as [k1 [I1 E1]]. destruct (H1 k1 I1) as [k0 [I0 E0]]. exists k0. split; [exact I0|congruence]. Qed.
+Lemma kpres_map f kss : (forall x, k_filter (f x) = k_filter x) -> kpres kss (map f kss).
+Proof. intros H k I. rewrite in_map_iff in I. destruct I as [x [<- Ix]]. exists x. auto. Qed.
+Lemma kpres_set d ks t' : In ks (d_kss d) -> kpres (d_kss d) (set_ks d (with_tree ks t')).
+Proof.
+  intros Iks k I. unfold set_ks in I. rewrite in_map_iff in I. destruct I as [x [E Ix]].
+  destruct (k_id x =? _); subst k; [exists ks|exists x]; auto.
+Qed.
+Lemma kpres_apply_item s kss it : kpres kss (apply_item s kss it).
+Proof. apply kpres_map. intros x. destruct (k_id x =? ri_ks it); reflexivity. Qed.
+Lemma kpres_fold s mi : forall kss, kpres kss (fold_left (apply_item s) mi kss).
+Proof. induction mi as [|it r IH]; intros kss; cbn [fold_left]; [apply kpres_refl|]. eapply kpres_trans; [apply kpres_apply_item|apply IH]. Qed.
+
+Lemma kpres_do_rotate d id : kpres (d_kss d) (d_kss (fst (do_rotate d id))).
+Proof.
+  unfold do_rotate. destruct (ks_of d id) as [ks|] eqn:K; [|apply kpres_refl]. destruct (t_rotate (k_tree ks)) as [t ok].
+  destruct ok; [|apply kpres_refl]. cbn [fst]. unfold after_rotate, journal_maintenance. cbn [d_kss upd upd_queue].
+  eapply kpres_trans; [apply (kpres_set d ks t), (ks_of_in _ _ _ K)|]. apply kpres_map. intros x. destruct (existsb _ _); reflexivity.
+Qed.
+
+Lemma kpres_do_step d : kpres (d_kss d) (d_kss (fst (do_step d))).
+Proof.
+  unfold do_step. destruct (d_queue d) as [|m q]; [apply kpres_refl|]. destruct m as [id mid| |id]; cbn [fst].
+  - destruct (ks_of _ id) as [ks|]; [|apply kpres_refl]. destruct (_ =? _); [|apply kpres_refl]. apply (kpres_do_rotate (upd_queue d q (d_flushq d))).
+  - destruct (d_flushq _) as [|id fq]; [apply kpres_refl|].
+    match goal with |- context [maybe_seal ?X] => set (dd := X) end.
+    assert (E1 : d_kss (maybe_seal dd) = d_kss d) by (unfold maybe_seal; destruct (_ && _); reflexivity).
+    destruct (ks_of (maybe_seal dd) id) as [ks|] eqn:K; [|cbn [fst]; rewrite E1; apply kpres_refl]. cbn [fst].
+    destruct (v_sealed (latest (k_tree ks))); cbn [d_kss journal_maintenance push_msg upd_queue upd draw_version fst snd].
+    + rewrite E1. apply kpres_refl.
+    + rewrite <- E1. apply (kpres_set (upd (maybe_seal dd) _ _ (d_kss (maybe_seal dd))) ks). exact (ks_of_in _ _ _ K).
+  - apply kpres_refl.
+Qed.
+
+Lemma kpres_do_drain f : forall d n, kpres (d_kss d) (d_kss (fst (do_drain f d n))).
+Proof.
+  induction f as [|f IH]; intros d n; cbn [do_drain]; [apply kpres_refl|]. destruct (d_queue d); [apply kpres_refl|].
+  eapply kpres_trans; [apply kpres_do_step|apply IH].
+Qed.
+
+Definition NF (d : db) : Prop := d_filters d = [] /\ nofilter d.
+
+Lemma nofilter_kpres d d' : nofilter d -> kpres (d_kss d) (d_kss d') -> nofilter d'.
+Proof. intros H P k I. destruct (P k I) as [k0 [I0 E]]. rewrite E. apply H, I0. Qed.
+
+Lemma filters_do_rotate d id : d_filters (fst (do_rotate d id)) = d_filters d.
+Proof. unfold do_rotate. destruct (ks_of d id); [|reflexivity]. destruct (t_rotate _) as [t ok]. destruct ok; reflexivity. Qed.
+Lemma filters_do_step d : d_filters (fst (do_step d)) = d_filters d.
+Proof.
+  unfold do_step. destruct (d_queue d) as [|m q]; [reflexivity|]. destruct m as [id mid| |id].
+  - destruct (ks_of _ id) as [ks|]; [|reflexivity]. destruct (_ =? _); [|reflexivity]. cbn [fst]. rewrite filters_do_rotate. reflexivity.
+  - destruct (d_flushq _) as [|id fq]; [reflexivity|].
+    match goal with |- context [maybe_seal ?X] => set (dd := X) end.
+    assert (E1 : d_filters (maybe_seal dd) = d_filters d) by (unfold maybe_seal; destruct (_ && _); reflexivity).
+    destruct (ks_of (maybe_seal dd) id) as [ks|]; [|exact E1]. cbn [fst]. destruct (v_sealed (latest (k_tree ks))); exact E1.
+  - reflexivity.
+Qed.
+Lemma filters_do_drain f : forall d n, d_filters (fst (do_drain f d n)) = d_filters d.
+Proof.
+  induction f as [|f IH]; intros d n; cbn [do_drain]; [reflexivity|]. destruct (d_queue d); [reflexivity|].
+  rewrite IH. apply filters_do_step.
+Qed.
+
+Theorem wstep_nf d o : NF d -> NF (wstep d o).
+Proof.
+  intros [F H]. destruct o; cbn [wstep].
+  - unfold do_ks. destruct (blookup name (d_map d)); cbn [fst]; [split; [exact F|exact H]|]. split; [exact F|].
+    intros k I. cbn in I. destruct I as [<-|I]; [cbn [k_filter]; unfold filter_for; rewrite F; reflexivity|].
+    apply filter_In in I. apply H, I.
+  - unfold write_one. destruct (ks_of d id) as [ks|]; [|split; assumption]. destruct (k_deleted ks); [split; assumption|].
+    destruct (d_poisoned d); [split; assumption|]. cbn [fst]. split; [exact F|]. eapply nofilter_kpres; [exact H|]. apply kpres_fold.
+  - split; [exact F|]. eapply nofilter_kpres; [exact H|]. apply kpres_fold.
+  - unfold do_clear. destruct (ks_of d id) as [ks|] eqn:K; [|split; assumption]. destruct (d_poisoned d); [split; assumption|].
+    unfold draw_version. cbn [fst snd]. split; [exact F|]. eapply nofilter_kpres; [exact H|].
+    cbn [d_kss upd]. apply (kpres_set (upd _ _ _ (d_kss d)) ks). exact (ks_of_in _ _ _ K).
+  - split; [rewrite filters_do_rotate; exact F|]. eapply nofilter_kpres; [exact H|apply kpres_do_rotate].
+  - split; [rewrite filters_do_step; exact F|]. eapply nofilter_kpres; [exact H|apply kpres_do_step].
+  - split; [rewrite filters_do_drain; exact F|]. eapply nofilter_kpres; [exact H|apply kpres_do_drain].
+  - unfold do_compact. destruct (ks_of d id) as [ks|] eqn:K; [|split; assumption]. destruct (v_tables _); [split; assumption|].
+    unfold draw_version. cbn [fst snd]. split; [exact F|]. eapply nofilter_kpres; [exact H|].
+    cbn [d_kss upd]. apply (kpres_set (upd _ _ _ (d_kss d)) ks). exact (ks_of_in _ _ _ K).
+  - unfold do_ingest. destruct (ks_of d id) as [ks|] eqn:K; [|split; assumption]. destruct items; [split; [exact F|exact H]|].
+    destruct (t_rotate (k_tree ks)) as [t1 b]. destruct (v_sealed (latest t1)); unfold draw_version; cbn [fst snd];
+      (split; [exact F|]); (eapply nofilter_kpres; [exact H|]); cbn [d_kss push_msg upd_queue upd];
+      apply (kpres_set (upd _ _ _ (d_kss d)) ks); exact (ks_of_in _ _ _ K).
+Qed.
+
+Lemma nf_init mode : NF (db_init mode []).
+Proof. split; [reflexivity|intros k []]. Qed.
+
+(* ======================= the refinement ======================= *)
+(* one step: the values a latest read returns afterwards are those of the reference map after the reference step *)
+Theorem wstep_refines I d o : DInv d -> nofilter d -> d_seqno (wstep d o) <= I ->
+  meq (absd I (wstep d o)) (sstep d o (absd I d)).
+Proof.
+  intros H NFd L. pose proof (wstep_seq_mono d o) as M. destruct o; cbn [wstep] in *.
+  - apply do_ks_refines.
+  - apply write_one_refines; assumption.
+  - apply commit_batch_refines; [exact H|cbn in L; lia].
+  - apply do_clear_refines.
+  - apply do_rotate_refines, H.
+  - apply do_step_refines; assumption.
+  - apply do_drain_refines; assumption.
+  - apply do_compact_refines; [exact H|exact NFd|lia].
+  - apply do_ingest_refines; assumption.
+Qed.
+
+Fixpoint srun (d : db) (ops : list wop) (m : smap) : smap :=
+  match ops with
+  | [] => m
+  | o :: r => srun (wstep d o) r (sstep d o m)
+  end.
+
+Lemma srun_ext ops : forall d m1 m2, meq m1 m2 -> meq (srun d ops m1) (srun d ops m2).
+Proof. induction ops as [|o r IH]; intros d m1 m2 H; cbn [srun]; [exact H|]. apply IH, sstep_ext, H. Qed.
+
+Lemma run_seq_mono ops : forall d, d_seqno d <= d_seqno (fold_left wstep ops d).
+Proof.
+  induction ops as [|o r IH]; intros d; cbn [fold_left]; [lia|]. etransitivity; [apply wstep_seq_mono|apply IH].
+Qed.
+
+Lemma run_nf ops : forall d, NF d -> NF (fold_left wstep ops d).
+Proof. induction ops as [|o r IH]; intros d H; cbn [fold_left]; [exact H|]. apply IH, wstep_nf, H. Qed.
+
+(* every program: reads at any instant above the final seqno counter see exactly the reference maps *)
+Theorem run_refines I ops : forall d, DInv d -> NF d -> d_seqno (fold_left wstep ops d) <= I ->
+  meq (absd I (fold_left wstep ops d)) (srun d ops (absd I d)).
+Proof.
+  induction ops as [|o r IH]; intros d H N L; cbn [fold_left srun] in *; [intros i k; reflexivity|].
+  intros i k. rewrite (IH (wstep d o)); [|apply (wrun_dinv [o]), H|apply wstep_nf, N|exact L].
+  apply srun_ext. apply wstep_refines; [exact H|exact (proj2 N)|].
+  etransitivity; [apply run_seq_mono|exact L].
+Qed.
+
+Definition sempty : smap := fun _ _ => None.
+
+Theorem db_refines mode ops I id k :
+  let d := fold_left wstep ops (db_init mode []) in
+  d_seqno d <= I -> absd I d id k = srun (db_init mode []) ops sempty id k.
+Proof.
+  intros d L. unfold d. rewrite (run_refines I ops (db_init mode [])); [|apply dinv_init|apply nf_init|exact L].
+  apply srun_ext. intros i k0. reflexivity.
+Qed.
+
+(* scans of the latest version show exactly the keys the reference map holds, in key order *)
+Theorem scan_matches_reads I d ks k v : DInv d -> In ks (d_kss d) ->
+  (In (k, v) (scan_ents (v_all (k_tree ks) (latest (k_tree ks))) I) <-> abs I (k_tree ks) k = Some v).
+Proof.
+  intros H Iks. rewrite scan_spec. unfold abs. rewrite rd_newest by (apply H, Iks). reflexivity.
+Qed.
+
+(* frame (C12): an operation addressed to one keyspace leaves the reads of every other keyspace as they are *)
+Definition op_target (d : db) (o : wop) (i : N) : Prop :=
+  match o with
+  | WKs _ name => blookup name (d_map d) = None /\ i = d_next_id d
+  | WWrite id _ _ _ _ | WClear id | WIngest id _ => i = id
+  | WBatch _ mi => exists it, In it mi /\ ri_ks it = i
+  | _ => False
+  end.
+
+Lemma fold_sitem_frame g mi i k : (forall it, In it mi -> ri_ks it <> i) -> forall m, fold_left (sitem g) mi m i k = m i k.
+Proof.
+  induction mi as [|it r IH]; intros NT m; cbn [fold_left]; [reflexivity|].
+  rewrite IH by (intros it' I'; apply NT; now right). unfold sitem, supd. destruct (g (ri_ks it)); [|reflexivity].
+  destruct (N.eqb_spec i (ri_ks it)) as [E|NE]; [exfalso; apply (NT it); [now left|congruence]|reflexivity].
+Qed.
+
+Theorem wstep_frame I d o i k : DInv d -> nofilter d -> d_seqno (wstep d o) <= I -> ~ op_target d o i ->
+  absd I (wstep d o) i k = absd I d i k.
+Proof.
+  intros H NFd L NT. rewrite (wstep_refines I d o H NFd L). destruct o; cbn [sstep op_target] in *; try reflexivity.
+  - destruct (blookup name (d_map d)) eqn:B; [reflexivity|]. unfold sclear. destruct (N.eqb_spec i (d_next_id d)); [exfalso; apply NT; auto|reflexivity].
+  - destruct (is_ok _); [|reflexivity]. unfold supd. destruct (N.eqb_spec i id); [contradiction|reflexivity].
+  - apply fold_sitem_frame. intros it Iit E. apply NT. exists it. auto.
+  - destruct (is_ok _); [|reflexivity]. unfold sclear. destruct (N.eqb_spec i id); [contradiction|reflexivity].
+  - destruct (has_ks d id); [|reflexivity]. destruct items; [reflexivity|]. unfold singest. destruct (N.eqb_spec i id); [contradiction|reflexivity].
+Qed.
+
+(* non-vacuity: the example program of DbOrderP.v, reads of keyspace 1 after it *)
+Lemma refine_example :
+  let d := fold_left wstep db_example (db_init MPlain []) in
+  d_seqno d <= 100 /\ absd 100 d 1 [105] = Some [9] /\ srun (db_init MPlain []) db_example sempty 1 [105] = Some [9] /\
+  srun (db_init MPlain []) db_example sempty 1 [107] = None.
+Proof. vm_compute. repeat split; discriminate. Qed.
+
+(* ---- compaction filters (C18): only the compacted keyspace, only as the verdict for the key says ---- *)
+Theorem do_compact_verdict I d id ev ks k0 : DInv d -> d_seqno d <= I -> ks_of d id = Some ks ->
+  let a := absd I d id k0 in
+  let a' := absd I (do_compact d id ev) id k0 in
+  match k_filter ks with
+  | None => a' = a
+  | Some r => match rule_verdict r k0 with
+              | FKeep => a' = a
+              | FRemove => a' = a \/ a' = None
+              | FReplace v => a' = a \/ (a <> None /\ a' = Some v)
+              end
+  end.
+Proof.
+  intros H L K a a'. subst a a'.
+  destruct (do_compact_filtered I d id ev id k0 H L) as [E|[ks' [h [_ [K' [R E]]]]]].
+  - rewrite E. destruct (k_filter ks) as [r|]; [destruct (rule_verdict r k0)|]; auto.
+  - rewrite K in K'. injection K' as <-. rewrite E.
+    assert (A : absd I d id k0 = value_of (Some h)).
+    { unfold absd, absk. assert (K2 : kfind (d_kss d) id = Some ks) by exact K. rewrite K2. unfold abs. rewrite R. reflexivity. }
+    assert (EK : ek h = k0).
+    { rewrite rd_newest in R by (apply H; exact (ks_of_in _ _ _ K)). apply newest_in in R. tauto. }
+    rewrite A. unfold apply_filter. destruct (is_tomb h) eqn:Tm.
+    + destruct (k_filter ks) as [r|]; [destruct (rule_verdict r k0)|]; auto.
+    + destruct (k_filter ks) as [r|]; [|reflexivity]. rewrite EK. destruct (rule_verdict r k0) as [| |v]; [reflexivity| |].
+      * right. reflexivity.
+      * right. split; [cbn; rewrite Tm; discriminate|reflexivity].
+Qed.
+
+Theorem do_compact_others I d id ev i k0 : DInv d -> d_seqno d <= I -> i <> id ->
+  absd I (do_compact d id ev) i k0 = absd I d i k0.
+Proof.
+  intros H L NE. destruct (do_compact_filtered I d id ev i k0 H L) as [E|[ks' [h [E _]]]]; [exact E|contradiction].
+Qed.
+
+(* ======================= the read path: version selection picks the latest version ======================= *)
+(* t_get / t_scan (what Keyspace::get / iter do at an instant) first select a super-version: the newest one whose seqno is
+   below the instant.  Version seqnos are drawn from the shared counter, so for an instant at or above the counter that is
+   the latest version, and the reads are the ones the refinement is stated for. *)
+Definition vb (n : N) (t : tree) : Prop := vers t <> [] /\ v_seq (latest t) < n.
+Definition VB (d : db) : Prop := forall ks, In ks (d_kss d) -> vb (d_seqno d) (k_tree ks).
+
+Theorem reads_select_latest I t k : vb I t ->
+  t_get t k I = Some (abs I t k) /\ t_scan t I = Some (scan_ents (v_all t (latest t)) I).
+Proof.
+  intros [NE L]. unfold t_get, t_scan, select_version, abs, rd.
+  destruct (N.eqb_spec I 0) as [E|_]; [lia|].
+  unfold latest in *. destruct (vers t) as [|v0 r]; [congruence|]. cbn [hd find] in *.
+  destruct (N.ltb_spec (v_seq v0) I); [|lia]. split; reflexivity.
+Qed.
+
+Lemma vb_mono n m t : n <= m -> vb n t -> vb m t.
+Proof. intros L [A B]. split; [exact A|lia]. Qed.
+Lemma vb_init n : 0 < n -> vb n tree_init.
+Proof. intros L. split; [discriminate|exact L]. Qed.
+Lemma vb_append n t e : vb n t -> vb n (t_append t e).
+Proof. intros H. exact H. Qed.
+Lemma vb_maint n W t : vb n t -> vb n (vh_maintenance W t).
+Proof.
+  intros [A B]. split; [|rewrite latest_maint by exact A; exact B].
+  unfold vh_maintenance. destruct (W =? 0); [exact A|]. destruct (vers t) as [|v [|w r]] eqn:V; [congruence|rewrite V; discriminate|].
+  destruct (existsb _ _); [|rewrite V; discriminate]. cbn [vers]. apply keep_from_first_nonempty. discriminate.
+Qed.
+Lemma vb_rotate n t : vb n t -> vb n (fst (t_rotate t)).
+Proof.
+  intros [A B]. unfold t_rotate. destruct (mem_of t (v_active (latest t))); [split; assumption|]. cbn [fst].
+  unfold latest, with_latest in *. cbn [vers]. destruct (vers t) as [|v0 r]; [congruence|]. split; [discriminate|exact B].
+Qed.
+Lemma vb_flush n W s t : vb n t -> s < n -> vb n (fst (t_flush W s t)).
+Proof.
+  intros H L. unfold t_flush. destruct (v_sealed (latest t)); [exact H|]. destruct (gc_stream _ _ _ _); [exact H|]. cbn [fst].
+  apply vb_maint. split; [discriminate|exact L].
+Qed.
+Lemma vb_compact n W s ev f t : vb n t -> s < n -> vb n (t_compact W s ev f t).
+Proof.
+  intros H L. unfold t_compact. destruct (v_tables (latest t)); [exact H|]. apply vb_maint. split; [discriminate|exact L].
+Qed.
+Lemma vb_clear n s t : s < n -> vb n (t_clear s t).
+Proof. intros L. split; [discriminate|exact L]. Qed.
+Lemma vb_register n g ents t : g < n -> vb n (t_register_ingest g ents t).
+Proof. intros L. split; [discriminate|exact L]. Qed.
+
+Lemma VB_set_ks d ks t' n' trk : In ks (d_kss d) -> vb n' t' -> d_seqno d <= n' -> VB d -> VB (upd d n' trk (set_ks d (with_tree ks t'))).
+Proof.
+  intros K T L H k0 I. cbn [d_kss d_seqno upd] in *. unfold set_ks in I. rewrite in_map_iff in I. destruct I as [k1 [E I1]].
+  destruct (k_id k1 =? k_id (with_tree ks t')); subst k0; [exact T|]. eapply vb_mono; [exact L|apply H, I1].
+Qed.
+Lemma VB_ext d d' : d_kss d' = d_kss d -> d_seqno d <= d_seqno d' -> VB d -> VB d'.
+Proof. intros E L H ks I. rewrite E in I. eapply vb_mono; [exact L|apply H, I]. Qed.
+
+Lemma VB_apply_item s n kss it : (forall ks, In ks kss -> vb n (k_tree ks)) -> forall ks, In ks (apply_item s kss it) -> vb n (k_tree ks).
+Proof.
+  intros H ks I. unfold apply_item in I. rewrite in_map_iff in I. destruct I as [k0 [<- I0]].
+  destruct (k_id k0 =? ri_ks it); [cbn [with_tree k_tree]; apply vb_append|]; apply H, I0.
+Qed.
+Lemma VB_fold s n mi : forall kss, (forall ks, In ks kss -> vb n (k_tree ks)) -> forall ks, In ks (fold_left (apply_item s) mi kss) -> vb n (k_tree ks).
+Proof. induction mi as [|it r IH]; intros kss H; cbn [fold_left]; [exact H|]. apply IH, VB_apply_item, H. Qed.
+
+Lemma VB_commit d ji mi : VB d -> VB (commit_batch d ji mi).
+Proof.
+  intros H ks I. unfold commit_batch in *. cbn [d_kss d_seqno upd upd_journal] in *.
+  eapply VB_fold; [|exact I]. intros k0 I0. eapply vb_mono; [|apply H, I0]. lia.
+Qed.
+
+Lemma VB_do_rotate d id : VB d -> VB (fst (do_rotate d id)).
+Proof.
+  intros H. unfold do_rotate. destruct (ks_of d id) as [ks|] eqn:K; [|exact H].
+  destruct (t_rotate (k_tree ks)) as [t ok] eqn:R. destruct ok; [|exact H]. cbn [fst].
+  assert (Et : t = fst (t_rotate (k_tree ks))) by (rewrite R; reflexivity).
+  unfold after_rotate, journal_maintenance. intros k0 I. cbn [d_kss d_seqno upd upd_queue] in *.
+  rewrite in_map_iff in I. destruct I as [k1 [E I1]].
+  assert (T1 : vb (d_seqno d) (k_tree k1)).
+  { unfold set_ks in I1. rewrite in_map_iff in I1. destruct I1 as [k2 [E2 I2]].
+    destruct (k_id k2 =? _); subst k1; [cbn [with_tree k_tree]; subst t; apply vb_rotate, H, (ks_of_in _ _ _ K)|apply H, I2]. }
+  destruct (existsb _ _); subst k0; [cbn [with_tree k_tree]; apply vb_maint, T1|exact T1].
+Qed.
+
+Lemma VB_do_step d : VB d -> VB (fst (do_step d)).
+Proof.
+  intros H. unfold do_step. destruct (d_queue d) as [|m q]; [exact H|].
+  set (d0 := upd_queue d q (d_flushq d)). assert (H0 : VB d0) by (apply (VB_ext d); [reflexivity|cbn; lia|exact H]).
+  destruct m as [id mid| |id].
+  - destruct (ks_of d0 id) as [ks|]; [|exact H0]. destruct (_ =? _); [|exact H0]. cbn [fst]. apply VB_do_rotate, H0.
+  - destruct (d_flushq d0) as [|id fq]; [exact H0|].
+    set (d1 := maybe_seal (upd_queue d0 (d_queue d0) fq)).
+    assert (H1 : VB d1) by (apply (VB_ext d0); [unfold d1, maybe_seal; destruct (_ && _); reflexivity|unfold d1, maybe_seal; destruct (_ && _); cbn; lia|exact H0]).
+    destruct (ks_of d1 id) as [ks|] eqn:K; [|exact H1]. cbn [fst].
+    apply (VB_ext (if match v_sealed (latest (k_tree ks)) with [] => false | _ => true end
+                   then let (d2, s) := draw_version d1 in upd d2 (d_seqno d2) (d_trk d2) (set_ks d2 (with_tree ks (fst (t_flush (W_of d1) s (k_tree ks)))))
+                   else d1)); [reflexivity|cbn; lia|].
+    destruct (v_sealed (latest (k_tree ks))); [exact H1|]. unfold draw_version. cbn [fst snd].
+    set (d2 := upd d1 (d_seqno d1 + 1) (tr_set_visible (d_trk d1) (d_seqno d1 + 1)) (d_kss d1)).
+    apply (VB_set_ks d2 ks); [exact (ks_of_in _ _ _ K)| |cbn; lia|apply (VB_ext d1); [reflexivity|cbn; lia|exact H1]].
+    cbn [d_seqno upd d2]. apply vb_flush; [eapply vb_mono; [|apply H1, (ks_of_in _ _ _ K)]; lia|lia].
+  - exact H0.
+Qed.
+
+Lemma VB_do_drain f : forall d n, VB d -> VB (fst (do_drain f d n)).
+Proof. induction f as [|f IH]; intros d n H; cbn [do_drain]; [exact H|]. destruct (d_queue d); [exact H|]. apply IH, VB_do_step, H. Qed.
+
+Theorem wstep_VB d o : VB d -> VB (wstep d o).
+Proof.
+  intros H. destruct o; cbn [wstep].
+  - unfold do_ks. destruct (blookup name (d_map d)); cbn [fst]; [intros ks I; cbn in I; apply H, I|].
+    intros ks I. cbn in I. destruct I as [<-|I]; [apply vb_init; cbn; lia|]. apply filter_In in I as [I _].
+    eapply vb_mono; [|apply H, I]. cbn. lia.
+  - unfold write_one. destruct (ks_of d id) as [ks|]; [|exact H]. destruct (k_deleted ks); [exact H|]. destruct (d_poisoned d); [exact H|].
+    apply VB_commit, H.
+  - apply VB_commit, H.
+  - unfold do_clear. destruct (ks_of d id) as [ks|] eqn:K; [|exact H]. destruct (d_poisoned d); [exact H|].
+    unfold draw_version. cbn [fst snd].
+    match goal with |- VB (upd ?D ?N ?T (set_ks ?D (with_tree ks ?T'))) => apply (VB_set_ks D ks) end;
+      [exact (ks_of_in _ _ _ K)|apply vb_clear; cbn; lia|cbn; lia|apply (VB_ext d); [reflexivity|cbn; lia|exact H]].
+  - apply VB_do_rotate, H.
+  - apply VB_do_step, H.
+  - apply VB_do_drain, H.
+  - unfold do_compact. destruct (ks_of d id) as [ks|] eqn:K; [|exact H]. destruct (v_tables _); [exact H|]. unfold draw_version. cbn [fst snd].
+    match goal with |- VB (upd ?D ?N ?T (set_ks ?D (with_tree ks ?T'))) => apply (VB_set_ks D ks) end;
+      [exact (ks_of_in _ _ _ K)| |cbn; lia|apply (VB_ext d); [reflexivity|cbn; lia|exact H]].
+    cbn [d_seqno upd]. apply vb_compact; [eapply vb_mono; [|apply H, (ks_of_in _ _ _ K)]; lia|lia].
+  - unfold do_ingest. destruct (ks_of d id) as [ks|] eqn:K; [|exact H].
+    destruct items as [|it0 its]; [apply (VB_ext d); [reflexivity|cbn; lia|exact H]|].
+    destruct (t_rotate (k_tree ks)) as [t1 b]. destruct (v_sealed (latest t1)); unfold draw_version; cbn [fst snd];
+      (match goal with |- VB (push_msg ?X _) => apply (VB_ext X); [reflexivity|cbn; lia|] end);
+      match goal with |- VB (upd ?D ?N ?T (set_ks ?D (with_tree ks ?T'))) => apply (VB_set_ks D ks) end;
+      try exact (ks_of_in _ _ _ K); try (apply vb_register; cbn; lia); try (cbn; lia);
+      (apply (VB_ext d); [reflexivity|cbn; lia|exact H]).
+Qed.
+
+Lemma run_VB ops : forall d, VB d -> VB (fold_left wstep ops d).
+Proof. induction ops as [|o r IH]; intros d H; cbn [fold_left]; [exact H|]. apply IH, wstep_VB, H. Qed.
+Lemma VB_init mode filters : VB (db_init mode filters).
+Proof. intros ks []. Qed.
+
+(* C01 in terms of the model's read functions: after every program, a point read and a scan of any keyspace at any instant
+   at or above the seqno counter (Keyspace::get / iter use SeqNo::MAX) return the reference map's value / the sorted map *)
+Theorem db_reads_refine mode ops I ks k :
+  let d := fold_left wstep ops (db_init mode []) in
+  In ks (d_kss d) -> d_seqno d <= I -> kfind (d_kss d) (k_id ks) = Some ks ->
+  t_get (k_tree ks) k I = Some (srun (db_init mode []) ops sempty (k_id ks) k) /\
+  exists sc, t_scan (k_tree ks) I = Some sc /\
+             Sorted.StronglySorted (fun a b => bytes_ltb (fst a) (fst b) = true) sc /\
+             forall k' v, In (k', v) sc <-> srun (db_init mode []) ops sempty (k_id ks) k' = Some v.
+Proof.
+  intros d Iks L KF.
+  assert (V : vb I (k_tree ks)) by (eapply vb_mono; [exact L|apply (run_VB ops _ (VB_init mode [])), Iks]).
+  assert (DI : DInv d) by (apply wrun_dinv, dinv_init).
+  assert (AB : forall k', abs I (k_tree ks) k' = srun (db_init mode []) ops sempty (k_id ks) k').
+  { intros k'. rewrite <- (db_refines mode ops I (k_id ks) k' L). unfold absd, absk. fold d. rewrite KF. reflexivity. }
+  destruct (reads_select_latest I (k_tree ks) k V) as [G S]. split; [rewrite G, AB; reflexivity|].
+  eexists. split; [exact S|]. split; [apply scan_sorted|]. intros k' v. rewrite <- AB. apply (scan_matches_reads I d ks k' v DI Iks).
+Qed.
